@@ -47,6 +47,9 @@ type PtrV struct {
 
 type SliceV struct {
 	E []Value // nil for the nil slice
+	// Grown: the backing array was allocated by append growth, so its capacity is
+	// implementation-defined; cap() and reslicing beyond len are then not encodable.
+	Grown bool
 }
 
 type MapV struct {
